@@ -385,6 +385,11 @@ fn gen_layers(rng: &mut Rng) -> (Vec<UnitsFile>, Vec<&'static str>) {
                     (Some(full(false)), None)
                 }
                 1 => (Some(alt(false)), Some(alt(true))),
+                3 => {
+                    // several spellings per prefix: their order inside the joined list is observable (first name / symbol)
+                    g.plant("si_two_spellings_per_prefix");
+                    (Some(em(|p| vec![format!("X{}", p.as_ref()), format!("Y{}", p.as_ref())])), Some(em(|p| vec![format!("x{}", p.as_ref()), format!("y{}", p.as_ref()), format!("z{}", p.as_ref())])))
+                }
                 2 => {
                     g.plant("si_empty_lists");
                     (Some(em(|_| Vec::<String>::new())), Some(em(|_| Vec::<String>::new())))
@@ -659,6 +664,14 @@ fn walk(conv: &Converter, m: Option<&Model>) -> Vec<(String, String)> {
 /// with unset fields filled from quantity, then system, then all; a unit without an entry and with at most one level
 /// set gets that level; unset fields take the documented defaults (off, 5 %, denominator 4, no whole limit) with the
 /// documented clamps. Observed through Quantity::try_fraction on probe values, against Number::new_approx (C12).
+/// what an entry of a fractions table says (own reading of the two documented shapes: `true`/`false`, or a table of fields)
+fn helper_of(w: &FractionsConfigWrapper) -> FractionsConfigHelper {
+    match w {
+        FractionsConfigWrapper::Toggle(b) => FractionsConfigHelper { enabled: Some(*b), accuracy: None, max_denominator: None, max_whole: None },
+        FractionsConfigWrapper::Custom(c) => *c,
+    }
+}
+
 fn fractions_probe(conv: &Converter, layers: &[UnitsFile], judged: &mut u64, skipped: &mut u64) -> Vec<(String, String)> {
     let mut bad = Vec::new();
     let frs: Vec<&Fractions> = layers.iter().filter_map(|l| l.fractions.as_ref()).collect();
@@ -666,16 +679,16 @@ fn fractions_probe(conv: &Converter, layers: &[UnitsFile], judged: &mut u64, ski
     let mut quantity: HashMap<PQ, FractionsConfigHelper> = HashMap::new();
     for f in &frs {
         if let Some(c) = f.all {
-            all = Some(c.get());
+            all = Some(helper_of(&c));
         }
         if let Some(c) = f.metric {
-            metric = Some(c.get());
+            metric = Some(helper_of(&c));
         }
         if let Some(c) = f.imperial {
-            imperial = Some(c.get());
+            imperial = Some(helper_of(&c));
         }
         for (q, c) in &f.quantity {
-            quantity.insert(*q, c.get());
+            quantity.insert(*q, helper_of(c));
         }
     }
     let or = |a: FractionsConfigHelper, b: FractionsConfigHelper| FractionsConfigHelper {
@@ -685,7 +698,7 @@ fn fractions_probe(conv: &Converter, layers: &[UnitsFile], judged: &mut u64, ski
         max_whole: a.max_whole.or(b.max_whole),
     };
     for u in conv.all_units() {
-        let entries: Vec<FractionsConfigHelper> = frs.iter().flat_map(|f| f.unit.iter()).filter(|(k, _)| conv.find_unit(k).is_some_and(|f| f.symbol() == u.symbol())).map(|(_, c)| c.get()).collect();
+        let entries: Vec<FractionsConfigHelper> = frs.iter().flat_map(|f| f.unit.iter()).filter(|(k, _)| conv.find_unit(k).is_some_and(|f| f.symbol() == u.symbol())).map(|(_, c)| helper_of(c)).collect();
         let levels: Vec<FractionsConfigHelper> = [
             quantity.get(&u.physical_quantity).copied(),
             match u.system {
@@ -880,6 +893,10 @@ fn shipped(ctx: &mut Ctx) {
                 &["[[quantity]]\nquantity = \"mass\"\nbest = { metric = [\"mg\", \"g\", \"kg\"], imperial = [\"oz\", \"lb\"] }\n"],
                 &["[[quantity]]\nquantity = \"mass\"\nbest = { metric = [\"mg\", \"g\", \"kg\"], imperial = [\"oz\", \"lb\", \"tsp\"] }\n"],
                 &["[[quantity]]\nquantity = \"time\"\nbest = [\"ml\"]\n"],
+                &["[fractions.unit]\ntsp = false\n"],
+                &["[fractions]\nall = true\n[fractions.unit]\ng = false\nkg = { enabled = false }\n"],
+                &["[extend]\nprecedence = \"after\"\n[extend.units]\ng = { aliases = [\"gramme\"] }\n", "[extend]\nprecedence = \"after\"\n[extend.units]\ng = { aliases = [\"gr\"] }\n"],
+                &["[si]\nprecedence = \"before\"\n[si.prefixes]\nkilo = [\"quilo\", \"kilo-\"]\nhecto = []\ndeca = []\ndeci = []\ncenti = []\nmilli = []\n[si.symbol_prefixes]\nkilo = [\"K\", \"kk\"]\nhecto = []\ndeca = []\ndeci = []\ncenti = []\nmilli = []\n"],
             ];
             for (k, texts) in USER_LAYERS.iter().enumerate() {
                 let mut layers = vec![file.clone()];
